@@ -30,9 +30,19 @@ def tyPrint : Ty → String
   | .i64 => "i64"
   | .decl n => n.print
 
+/-- `str::replace(", ", "_")`: non-overlapping matches, left to right -/
+def replaceCommaSpace : List Char → List Char
+  | ',' :: ' ' :: rest => '_' :: replaceCommaSpace rest
+  | c :: rest => c :: replaceCommaSpace rest
+  | [] => []
+
+/-- `s.replace('[',"_").replace(", ","_").replace(']',"")` on the list of characters (structural,
+    so that it reduces in the kernel; `String.replace` does not) -/
+def mangleChars (cs : List Char) : List Char :=
+  (replaceCommaSpace (cs.map fun c => if c == '[' then '_' else c)).filter fun c => c != ']'
+
 /-- switch.rs / create.rs: `ty.print_to_string(None).replace('[',"_").replace(", ","_").replace(']',"")` -/
-def mangleTy (ty : Ty) : String :=
-  (((tyPrint ty).replace "[" "_").replace ", " "_").replace "]" ""
+def mangleTy (ty : Ty) : String := String.ofList (mangleChars (tyPrint ty).toList)
 
 def chiStr : Chi → String
   | .prd => "prd" | .cns => "cns" | .ext => "ext"
@@ -61,6 +71,11 @@ def ifSortSym : IfSort → String
 
 /-- rendering of label numbers (`usize` Display) -/
 def natRen : Nat → String := fun n => toString n
+
+/-- `format!("{}", fresh_label())`: the next label number, rendered -/
+def freshLabelStr (ren : Nat → String) : GenM String := do
+  let n ← freshLabel
+  pure (ren n)
 
 /-! ## derived `Ord` of `ContextBinding` (key order of the `BTreeMap` in `transpose`) -/
 
@@ -278,9 +293,9 @@ def codeWeakeningContraction (targetMap : List (Binding × List Nat)) (context :
   match targetMap with
   | [] => pure []
   | (binding, targets) :: rest => do
-    let code ← if binding.chi != .ext then
+    let code ← (if binding.chi != .ext then
         updateReferenceCount B binding.var context targets.length
-      else pure []
+      else pure [])
     let codeRest ← codeWeakeningContraction rest context
     pure (code ++ codeRest)
 
@@ -359,15 +374,15 @@ mutual
     -- switch.rs
     | .switch var ty clauses _, context => do
       let c0 := hookCode B hooks context ++ [B.comment ("switch " ++ var.print ++ " \\{ ... \\};")]
-      let n ← freshLabel
-      let freshLbl := mangleTy ty ++ "_" ++ ren n
+      let num ← freshLabelStr ren
+      let freshLbl := mangleTy ty ++ "_" ++ num
       let numberOfClauses := clauses.length
-      let c1 ← if numberOfClauses ≤ 1 then
+      let c1 ← (if numberOfClauses ≤ 1 then
           pure [B.comment "#there is only one clause, so we can just fall through"]
         else do
           let tagTemporary ← B.variableTemporary .snd context var.id
           pure (B.loadLabel B.temp freshLbl ++ B.binop .sum B.temp B.temp tagTemporary ++
-            B.jump B.temp)
+            B.jump B.temp))
       let c2 := B.label freshLbl ::
         (if numberOfClauses > 1 then codeTable B clauses freshLbl else [])
       let c3 ← codeClausesR hooks ren types context.dropLast clauses freshLbl
@@ -382,8 +397,8 @@ mutual
             ")\\{ ... \\};")]
         let (context1, closureEnvironment) ← splitOffLast context envCtx.length
         let c1 ← B.store closureEnvironment context1
-        let n ← freshLabel
-        let freshLbl := mangleTy ty ++ "_" ++ ren n
+        let num ← freshLabelStr ren
+        let freshLbl := mangleTy ty ++ "_" ++ num
         let context2 := context1 ++ [⟨var, .cns, ty⟩]
         let tableTemporary ← B.variableTemporary .snd context2 var.id
         let c2 := B.comment "#load tag" :: B.loadLabel tableTemporary freshLbl
@@ -435,16 +450,16 @@ mutual
     -- ifc.rs
     | .ifc sort fst snd thenc elsec, context => do
       let c0 := hookCode B hooks context ++ [B.comment (ifcComment sort fst snd)]
-      let n ← freshLabel
-      let freshLbl := "lab" ++ ren n
-      let c1 ← match snd with
+      let num ← freshLabelStr ren
+      let freshLbl := "lab" ++ num
+      let c1 ← (match snd with
         | none => do
           let a ← B.variableTemporary .snd context fst.id
           pure (B.jumpLabelIfZero sort a freshLbl)
         | some snd => do
           let a ← B.variableTemporary .snd context fst.id
           let b ← B.variableTemporary .snd context snd.id
-          pure (B.jumpLabelIf sort a b freshLbl)
+          pure (B.jumpLabelIf sort a b freshLbl))
       let c2 ← codeStatementR hooks ren types elsec context
       let c3 ← codeStatementR hooks ren types thenc context
       pure (c0 ++ c1 ++ [B.comment "else branch"] ++ c2 ++
